@@ -169,7 +169,9 @@ RouteDel(r) ==
   /\ UNCHANGED <<acl, grp, bind>>
 
 (* exit : leaves the sub-mode *)
-Exit == mode' = "" /\ UNCHANGED <<acl, grp, bind, route, err>>
+\* `exit` in global configuration mode LEAVES configuration mode: every later command would be refused
+ExitG == IF mode = "" THEN "exit in global configuration mode (leaves configuration mode)" ELSE ""
+Exit == err' = Latch(ExitG) /\ mode' = "" /\ UNCHANGED <<acl, grp, bind, route>>
 
 (* a new session: the configuration stays, the mode is lost (C10) *)
 Resume == mode' = "" /\ UNCHANGED <<acl, grp, bind, route, err>>
